@@ -688,6 +688,9 @@ class CellsImpl(*_cells_impl_base):
             data = {}
         self.data.update(data)
         self.input_keys = set(data.keys())
+        for key in data:
+            # Held values have their nodes in the graph, like assigned ones
+            self.model.tracegraph.add_node(key_to_node(self, key))
 
         BaseNamespaceReferrer.__init__(self, space._namespace)
         self._namespace = self.parent._namespace
